@@ -340,14 +340,19 @@ def register_path(R, path_obj):
           ensures=[("number-of-window-positions", lambda E, v, o: to_z3(v["result"], "int") == pidx(v["self"]).nz())])
 
     # ------------------------------------------------------------------ Path.node / get_node
+    # node(i) does not normalise i (path.node(-1) is the last node): the handle stands for the position i wraps to
     def node_post(E, v, o):
         r, p = v["result"], v["self"]
-        return isinstance(r, Obj) and r.cls is Path.Node and r.fields.get("attach") is p and r.fields.get("names") is p.fields["names"] and r.fields.get("idx") is v["idx"]
+        if not (isinstance(r, Obj) and r.cls is Path.Node and r.fields.get("attach") is p and r.fields.get("names") is p.fields["names"]):
+            return False
+        n, i, j = pidx(p).nz(), to_z3(o["idx"], "int"), to_z3(r.fields["idx"], "int")
+        return z3.And(j >= -n, j < n, z3.If(j < 0, j + n, j) == z3.If(i < 0, i + n, i))
 
     for fn in ("node", "get_node"):
         R.add(f"{PATH}:Path.{fn}", prop="C09",
               setup=lambda S: dict(self=sym_path(S), idx=S.int("i")),
-              ensures=[("handle-on-this-path-at-the-given-position", node_post)])
+              requires=PRE + [("position-in-[-len,len)", lambda E, v, o: z3.And(to_z3(v["idx"], "int") >= -pidx(v["self"]).nz(), to_z3(v["idx"], "int") < pidx(v["self"]).nz()))],
+              ensures=[("handle-on-this-path-standing-for-the-given-(wrapped)-position", node_post)])
 
     # ------------------------------------------------------------------ Path.__getitem__
     def key_out_of_range(E, v, o):
@@ -923,12 +928,17 @@ def register_tree(R):
           ensures=[("one-handle-per-row-in-row-order", iter_post)], options=dict(OPTS))
 
     # ------------------------------------------------------------------ Tree.node
+    # node(i) does not normalise i (tree.node(-1) is the last row): the handle stands for the row i wraps to
     def node_post(E, v, o):
         r, t = v["result"], v["self"]
-        return isinstance(r, Obj) and r.cls is Tree.Node and r.fields.get("attach") is t and r.fields.get("names") is t.fields["names"] and r.fields.get("idx") is v["idx"]
+        if not (isinstance(r, Obj) and r.cls is Tree.Node and r.fields.get("attach") is t and r.fields.get("names") is t.fields["names"]):
+            return False
+        n, i, j = nof(t), to_z3(o["idx"], "int"), to_z3(r.fields["idx"], "int")
+        return z3.And(j >= -n, j < n, z3.If(j < 0, j + n, j) == z3.If(i < 0, i + n, i))
 
     R.add(f"{TREE}:Tree.node", prop="C09", setup=lambda S: dict(self=sym_tree(S, "t"), idx=S.int("i")),
-          ensures=[("handle-on-this-tree-at-the-given-position-as-given", node_post)])
+          requires=[("position-in-[-n,n)", lambda E, v, o: z3.And(to_z3(v["idx"], "int") >= -nof(v["self"]), to_z3(v["idx"], "int") < nof(v["self"]))),],
+          ensures=[("handle-on-this-tree-standing-for-the-given-(wrapped)-row", node_post)])
 
     # ------------------------------------------------------------------ Tree.soma
     def not_soma(E, v, o):
